@@ -5,8 +5,8 @@ from fractions import Fraction as F
 import math
 import types
 
-from extract import margin_boxes
-from harness import c14_docs, c14_gen as g
+from extract import margin_boxes, page_sizes
+from harness import c14_docs, c14_gen as g, c14_percent, c14_regress, c14_sheet
 from harness import docs
 from vlib import lean, sx
 from vlib.framework import PropCheck
@@ -345,15 +345,21 @@ def clause_variable(specs, avail, b_generated, out):
 
 class C14(PropCheck):
     id = 'C14'
-    extractors = (margin_boxes.generate,)
-    modules = ('WpModel.Props.C14', 'WpModel.Props.C14Strings', 'WpModel.Props.C14Variable', 'WpModel.Props.C14Groups', 'WpModel.Witness.C14')
+    extractors = (margin_boxes.generate, page_sizes.generate)
+    modules = ('WpModel.Props.C14', 'WpModel.Props.C14Strings', 'WpModel.Props.C14Variable', 'WpModel.Props.C14Groups',
+               'WpModel.Props.C14Parse', 'WpModel.Props.C14Percent', 'WpModel.Props.C14Sheet', 'WpModel.Props.C14Doc',
+               'WpModel.Witness.C14')
     trusted_base = (
         'modelled, not verified: layout/page.py page_width_or_height, page_width/page_height (+ min_max.py), '
         'compute_fixed_dimension, compute_variable_dimension, make_margin_boxes (geometry), make_page (geometry), '
         'remake_page (side/blank), _standardize_page_based_counters; layout/__init__.py initialize_page_maker, '
         'get_string_or_element_for; build.update_counters; css parse_page_selectors, _page_type_match, '
-        'add_page_declarations, declaration_precedence; pdf generate_pdf page boxes — hand transcriptions tied by '
-        'the executable correspondence of every run',
+        'add_page_declarations, declaration_precedence; pdf generate_pdf page boxes; layout/percent.py percentage, '
+        'resolve_one_percentage, resolve_percentages (definite containing block), adjust_box_sizing; css/utils.py '
+        'get_length, get_keyword; validation/properties.py size, marks, bleed; computed_values.py length (absolute '
+        'units, em, rem), length_tuple, bleed — hand transcriptions tied by the executable correspondence of every run',
+        'PAGE_SIZES / INITIAL_PAGE_SIZE / LENGTHS_TO_PIXELS / LENGTH_UNITS regenerated from computed_values.py and '
+        'utils.py by AST each run (Gen/PageSizes.lean), cross-checked against the imported objects',
         'side / corner tables of make_margin_boxes regenerated from page.py by AST each run (Gen/MarginBoxes.lean)',
         'tinycss2 tokeniser and tinycss2.nth.parse_nth (oracle table), preferred.min/max_content_width (stubbed in '
         'direct calls; real with the fixed-pitch test font in documents), Pango line breaking of margin-box text',
@@ -369,7 +375,10 @@ class C14(PropCheck):
         docs.quiet()
         rng = run.rng
         self._tagged = []
+        c14_regress.correspondence(self, run)          # corpus first: inputs of the repaired findings
         self._page_box(run, rng)
+        c14_percent.correspondence(self, run)
+        c14_sheet.correspondence(self, run)
         self._fixed(run, rng)
         self._variable(run, rng)
         self._sides(run, rng)
@@ -820,6 +829,12 @@ class C14(PropCheck):
                 return c14_docs.judge_groups(args, impl)
             if fn in ('doc', 'pdf'):
                 return c14_docs.judge_doc(meta, d)
+            if fn == 'reg-pagerule':
+                return c14_regress.judge(meta, impl)
+            if fn in ('respct', 'pagepct'):
+                return c14_percent.judge(meta, impl)
+            if fn in ('sizev', 'sizec', 'marksv', 'bleedv', 'bleedc', 'sheet'):
+                return c14_sheet.judge(meta, impl)
         except Exception as exc:  # a clause that cannot be evaluated is not a verdict
             return None
         return None
@@ -833,6 +848,12 @@ class C14(PropCheck):
     def replay(self, data):
         inp = data.get('input', {})
         meta = inp.get('meta') or inp
+        if meta.get('fn') == 'reg-pagerule':
+            return c14_regress.replay(meta)
+        if meta.get('fn') in ('respct', 'pagepct'):
+            return c14_percent.replay(meta)
+        if meta.get('fn') in ('sizev', 'sizec', 'marksv', 'bleedv', 'bleedc', 'sheet'):
+            return c14_sheet.replay(meta)
         if 'html' in meta or meta.get('fn') in ('doc', 'pdf'):
             return c14_docs.replay_doc(meta)
         fn, args = meta.get('fn'), meta.get('args')
@@ -879,7 +900,16 @@ MANIFEST = {
             'counter(pages) = page count on every page; string()/element() lookup refines the css-gcpm spec over the whole '
             'page history; three margin boxes sharing a side never overlap when they fit at min-content; page groups '
             '(_update_page_groups) on single-path resume_at never raise and are a prefix test; MediaBox / TrimBox / BleedBox '
-            'arithmetic with zoom.',
+            'arithmetic with zoom (zoom is a uniform scale of all three boxes); parse_page_selectors lets through only '
+            'exceptions it does not catch; percentages of the page box refer to the sheet height for top/bottom and the '
+            'models of the page box / margin boxes are exactly resolve_percentages followed by the page algorithms '
+            '(refinement); the page box is scale-invariant (make_page_box_scale); box-sizing; size: one/two lengths, names, landscape = swap of portrait in either keyword '
+            'order, every ISO/JIS row of the regenerated PAGE_SIZES is the next larger sheet cut in half; marks valid iff '
+            'none|crop|cross|crop cross; bleed:auto = 8px iff marks has crop; render_sound: every page of the document '
+            'model (the function compared with rendered documents) is makePageBox of a cascaded style + makeMarginBoxes on '
+            'its geometry, counter(pages) = number of pages, page sequence = docPages (function-level theorems transported); '
+            'render_page_counter: counter(page) = i+1 on every page of a rendered document whose @page rules touch no counter '
+            '(through the cascade: cascade_not_declared).',
     'note': 'Trusted: Lean kernel, the AST translator of the margin-box tables, the harness (mock boxes, stubbed content '
             'widths in direct calls; real content widths with the fixed-pitch font in documents). Margin-box content '
             'layout (line breaking inside margin boxes, its final assertion), crop/cross marks, and the re-make passes of '
@@ -887,5 +917,7 @@ MANIFEST = {
             'counters in content with re-makes, where PageType.groups is not compared). Known findings: MediaBox mirrored '
             'for bleed-top != bleed-bottom; @page :nth(2n+) crash; margin boxes overlapping at min-content (deliberate); '
             'three page-group defects (lost on re-make, blank page counted, not started on the first page); element() '
-            'from a named page crashes the margin box; element(start) ignores running elements.',
+            'from a named page crashes the margin box; element(start) ignores running elements; @page :nth(+) still '
+            'crashes (StopIteration not caught by repair 9ef10c8). Repaired findings are replayed first in every run '
+            '(corpus/C14/fixed_regressions.json).',
 }
